@@ -460,6 +460,8 @@ class C19Reads(Suite):
     model = "r_model"
     oeq = "r_obs_eqb"
     spec = "r_spec"
+    kf = "r_kf"
+    kf_ids = {1: "F3i"}
     corr = "Collection.__getitem__/__len__/__iter__/index/_get_container, Graph.items/value on cyclic, broken, forked chains"
     quick_n = 300
     thorough_n = 6000
@@ -584,4 +586,5 @@ RULE = ("collection: start list of length 0-5 over a vocabulary of 2-4 members (
         "get/set/del with any index in -n-1..n+2, append, += list, += self (c, iter(c), another Collection on the node), "
         "Collection(g, uri, seq) on the existing list, clear, len, iter, n3, index, in (80% of the cases stay outside the one "
         "remaining known-finding region, c[len] = v); distinct by full case content, non-trivial = contains a write. "
-        "collreads: a chain of 1-4 cells mutated into a cyclic / broken / forked / literal-linked chain, 2-6 reads.")
+        "collreads: a chain of 1-4 cells mutated into a cyclic / broken / forked / literal-linked chain, 2-6 reads; list/len/n3 must raise "
+        "on cyclic and broken chains, an unsuccessful membership test on broken ones (broken = known finding F3i).")
